@@ -29,7 +29,7 @@ cond (prefix): all | eq k v | in k v,v | and c c | or c c
 import LinVerif.Util.Proto
 import LinVerif.Model.MemDB
 import LinVerif.Model.QueryExpr
-import LinVerif.Model.MetricBlock
+import LinVerif.Model.BlockLayout
 import LinVerif.Generated.C11
 
 namespace LinVerif.Driver.C11
@@ -273,7 +273,7 @@ def showPage (b : Buf) : String :=
   s!"has={b.hasData} start={b.start} end={b.endd} cells={showCells b.cells} compress={c}"
 
 /-- the variant of the metric block writer the regenerated facts describe. -/
-def blockCfgOfFacts : MetricBlock.Cfg := ⟨Generated.C11.rebaseLevel4AfterBucketFooter⟩
+def blockCfgOfFacts : BlockLayout.Cfg := ⟨Generated.C11.rebaseLevel4AfterBucketFooter⟩
 
 /-- `<sid>:<len>,<len>,...` -/
 def parseBlkSeries (w : String) : Option (Nat × List Nat) :=
@@ -290,9 +290,9 @@ def ascending : List Nat → Bool
 
 /-- op `blk`. -/
 def runBlk (nf : Nat) (series : List (Nat × List Nat)) : String :=
-  let b := MetricBlock.flushBlock blockCfgOfFacts MetricBlock.Enc.simple nf series
-  let lost := MetricBlock.lostSeries blockCfgOfFacts MetricBlock.Enc.simple nf series
-  s!"buckets={(MetricBlock.highKeys b.w.ids).length} offsets={b.w.highOffs.length} entries={b.w.ids.length} lost={if lost.isEmpty then "-" else Proto.joinNat lost}"
+  let b := BlockLayout.flushBlock blockCfgOfFacts BlockLayout.Enc.simple nf series
+  let lost := BlockLayout.lostSeries blockCfgOfFacts BlockLayout.Enc.simple nf series
+  s!"buckets={(BlockLayout.highKeys b.w.ids).length} offsets={b.w.highOffs.length} entries={b.w.ids.length} lost={if lost.isEmpty then "-" else Proto.joinNat lost}"
 
 def step (st : St) (ws : List String) : St × String :=
   match ws with
